@@ -394,6 +394,17 @@ def named_table():
     class Sub(NT):
         pass
     nt, ut = NT(1, 'x'), UT(1, 2)
+
+    class EqAll:
+        def __eq__(self, other):
+            return True
+
+        def __hash__(self):
+            return 0
+
+    class K:
+        pass
+    K_other = type('K', (), {})
     t = [('NT vs own class', nt, NT, True), ('untyped namedtuple vs own class', ut, UT, True), ('NT vs object', nt, object, True),
          ('NT vs Tuple[int, str]', nt, Tuple[int, str], True), ('NT vs tuple[int, str]', nt, tuple[int, str], True),
          ('NT vs unrelated NamedTuple with equal fields', nt, NT2, False), ('NT vs dataclass with equal fields', nt, D, False),
@@ -403,7 +414,13 @@ def named_table():
          ('NT vs Any', nt, Any, True), ('untyped namedtuple vs Tuple[int, int]', ut, Tuple[int, int], True),
          ('untyped namedtuple vs Tuple[int, str]', ut, Tuple[int, str], False), ('NT vs Dict[str, NT] value', {'k': nt}, Dict[str, NT], True),
          ('subclass instance of NT vs NT', Sub(1, 'x'), NT, True), ('NT vs subclass of NT', nt, Sub, False),
-         ('NT vs tuple[NT2, int] element', (nt, 1), tuple[NT2, int], False), ('NT vs Union[NT2, str]', nt, Union[NT2, str], False)]
+         ('NT vs tuple[NT2, int] element', (nt, 1), tuple[NT2, int], False), ('NT vs Union[NT2, str]', nt, Union[NT2, str], False),
+         # values / annotations outside the model's universe (custom __eq__, two classes of one name)
+         ('object with __eq__ -> True vs None', EqAll(), None, False), ('unittest.mock.ANY vs None', __import__('unittest.mock').mock.ANY, None, False),
+         ('object with __eq__ -> True vs Optional[int]', EqAll(), Optional[int], False),
+         ('[object with __eq__ -> True] vs List[None]', [EqAll()], List[None], False),
+         ("instance of K vs 'K'", K(), 'K', True),
+         ("instance of an unrelated class that is also called K vs 'K'", K_other(), 'K', False)]
     _named['t'] = t
     return t
 
@@ -415,7 +432,8 @@ def run_named(c):
         return {'size': len(t)}
     name, val, ann, conf = t[c['i']]
     r = {'name': name, 'conforms': conf}
-    r['out'], r['exc'] = outcome(lambda: assert_value_matches_type(value=val, type_=ann, err='', type_vars={}, context={}))
+    ctx = {'K': t[-2][1].__class__}
+    r['out'], r['exc'] = outcome(lambda: assert_value_matches_type(value=val, type_=ann, err='', type_vars={}, context=ctx))
     return r
 
 
